@@ -1043,8 +1043,11 @@ class Deferred(Awaitable[_SelfResultT]):
             if current.paused:
                 # This Deferred isn't going to produce a result at all.  All the
                 # Deferreds up the chain waiting on it will just have to...
-                # wait.
-                return
+                # wait.  The Deferreds further down the chain, which supplied
+                # it with its result, may still have callbacks of their own to
+                # run though.
+                chain.pop()
+                continue
 
             finished = True
             current._chainedTo = None
